@@ -484,7 +484,41 @@ def ob_mu_switched(switched):
             for rx in range(2):
                 goals.append(Goal("receiver %d gets its own link applied to the transmitter's signal" % rx, _meq(out[rx], _conv_spec(x[0], irs[rx], delays, N))))
         return goals
-    return verify(body, check_side=False, timeout_ms=120000)
+
+    def rp(mv):
+        # history replay on the real classes (Jakes fading, generic values)
+        from pyphysim.channels import multiuser, fading_generators as fgen
+        try:
+            rr = np.random.RandomState(8)
+            jk = fgen.JakesSampleGenerator(Fd=0.01, Ts=1.0, L=8, RS=np.random.RandomState(5))
+            mu = multiuser.MuChannel((2, 1), jk, _profile([0, 1]))
+            mu.set_pathloss(np.array([[0.4], [0.09]]))
+            if switched:
+                mu.switched_direction = True
+            N = 6
+            x = rr.randn(2 if switched else 1, N) + 1j * rr.randn(2 if switched else 1, N)
+            out = mu.corrupt_data(x)
+
+            def conv(sig, ir):
+                t = ir.tap_values_sparse
+                y = np.zeros(N + 1, dtype=complex)
+                for i_, d_ in enumerate([0, 1]):
+                    y[d_:d_ + N] += t[i_] * sig
+                return y
+            irs = [mu.get_last_impulse_response(rx_, 0) for rx_ in range(2)]
+            if switched:
+                want = [conv(x[0], irs[0]) + conv(x[1], irs[1])]
+            else:
+                want = [conv(x[0], irs[0]), conv(x[0], irs[1])]
+            if len(out) != len(want) or any(np.shape(a) != np.shape(b) or not (np.abs(a - b).max() <= 1e-9) for a, b in zip(out, want)):
+                return {"confirmed": True, "MuChannel": "2 receivers x 1 transmitter", "switched_direction": switched,
+                        "outputs": len(out), "expected outputs": len(want),
+                        "max difference from the superposition of the links' reported responses":
+                            float(max(np.abs(a - b).max() for a, b in zip(out, want))) if len(out) == len(want) and all(np.shape(a) == np.shape(b) for a, b in zip(out, want)) else "shape"}
+            return {"confirmed": False, "note": "real MuChannel agrees in this direction"}
+        except Exception as e:
+            return {"confirmed": False, "error": "replay crashed: %r" % (e,)}
+    return verify(body, check_side=False, timeout_ms=120000, replay=rp)
 
 
 @obligation("su_mimo/pathloss_and_antennas", params=[{"switched": sw} for sw in (False, True)], timeout=300,
